@@ -1,1 +1,2 @@
+import Neutrino.Props.C09
 import Neutrino.Props.C16
